@@ -22,6 +22,12 @@ reg(Prop('C01', 'Kevo.Props.C01', facts=['facts:storage.*'], components=[ENGINE,
               'retirement of flushed log files and reopen, so that reads are answered by SSTables alone (the two architectural compaction '
               'findings of C12 violate C01 as well and are listed for C01 too).', assumptions=_ENGINE_ASSUME))
 from propdefs.c02_c03 import CRASH
-reg(Prop('C08', 'Kevo.Props.C08', facts=['facts:storage.*', 'facts:wal.AppendBatch.nextSequence'], components=[ENGINE, CRASH], fact_tags=['storage', 'memtable', 'wal'],
+from oracledefs import lin as _lin
+SEQROT = Comp('seqrot', n_quick=40, n_thorough=400, oracle=_lin.lin_oracle, nontrivial=_lin.lin_nontrivial, stats=_lin.lin_stats,
+              differential=False, chunk_min=3, timeout=1500, shrink=False)
+reg(Prop('C08', 'Kevo.Props.C08', facts=['facts:storage.*', 'facts:wal.AppendBatch.nextSequence', 'facts:locks.rotateWAL.seqHandover'], components=[ENGINE, CRASH, SEQROT], fact_tags=['storage', 'memtable', 'wal'],
          rule=_ENGINE_RULE + ' Plus component crash: after a kill at every instrumentation site the recovered last sequence must be the number of the '
-              'last recovered write and later writes continue above it.', assumptions=_ENGINE_ASSUME))
+              'last recovered write and later writes continue above it. Plus implementation-only component seqrot (scenario kind of component lin, see C06): '
+              '1-4 writers at full speed against back-to-back FlushImMemTables (about 100 log rotations per second); the replayed log directory must '
+              'hold every acknowledged write once and its sequence numbers must be strictly increasing in log order (the counter hand-over in '
+              'rotateWAL is also pinned by the fact locks.rotateWAL.seqHandover).', assumptions=_ENGINE_ASSUME))
